@@ -23,6 +23,8 @@ const (
 
 	keyTagName = "Key"
 
+	storeConfigStoreSuffix = "_formattedstore_storeconfig"
+
 	invalidTagName                 = `"%s" is an invalid tag name since it contains one or more ':' characters`
 	invalidTagValue                = `"%s" is an invalid tag value since it contains one or more ':' characters`
 	failFormat                     = `failed to format %s "%s": %w`
@@ -172,7 +174,7 @@ func (f *FormattedProvider) GetStoreConfig(name string) (spi.StoreConfiguration,
 	// In order to support the more restrictive EDV formatter, we bypass the usual GetStoreConfig method and instead
 	// get the unformatted tags by fetching them from the "store config" formatted store created earlier.
 
-	store, err := f.OpenStore(storeName + "_formattedstore_storeconfig")
+	store, err := f.OpenStore(storeName + storeConfigStoreSuffix)
 	if err != nil {
 		return spi.StoreConfiguration{}, fmt.Errorf("failed to open the store config store: %w", err)
 	}
@@ -199,13 +201,15 @@ func (f *FormattedProvider) GetOpenStores() []spi.Store {
 	f.lock.RLock()
 	defer f.lock.RUnlock()
 
-	openStores := make([]spi.Store, len(f.openStores))
+	openStores := make([]spi.Store, 0, len(f.openStores))
 
-	var counter int
+	for name, openStore := range f.openStores {
+		// The side stores that hold the store configurations are internal: the caller never opened them.
+		if strings.HasSuffix(name, storeConfigStoreSuffix) {
+			continue
+		}
 
-	for _, openStore := range f.openStores {
-		openStores[counter] = openStore
-		counter++
+		openStores = append(openStores, openStore)
 	}
 
 	return openStores
@@ -223,7 +227,7 @@ func (f *FormattedProvider) Close() error {
 }
 
 func (f *FormattedProvider) storeStoreConfig(storeName string, configBytes []byte) error {
-	store, err := f.openStore(storeName + "_formattedstore_storeconfig")
+	store, err := f.openStore(storeName + storeConfigStoreSuffix)
 	if err != nil {
 		return fmt.Errorf("failed to open the store config store: %w", err)
 	}
